@@ -184,10 +184,13 @@ class Pipe(BranchWInternalsComponent):
         :return: pipe_results
         :rtype:
         """
-        internal_nodes = cls.get_internal_node_number(net)
+        # the numbers of internal nodes are ordered like the pipe table, the pipes are given by their index
+        pipe = np.asarray(pipe)
+        pipe_pos = net[cls.table_name()].index.get_indexer(pipe)
+        internal_nodes = cls.get_internal_node_number(net)[pipe_pos]
         internal_sections = internal_nodes + 1
-        p_node_idx = np.repeat(pipe, internal_nodes[pipe])
-        v_pipe_idx = np.repeat(pipe, internal_sections[pipe])
+        p_node_idx = np.repeat(pipe, internal_nodes)
+        v_pipe_idx = np.repeat(pipe, internal_sections)
         pipe_results = dict()
         pipe_results["PINIT"] = np.zeros((len(p_node_idx), 2), dtype=np.float64)
         pipe_results["TINIT"] = np.zeros((len(p_node_idx), 2), dtype=np.float64)
@@ -195,7 +198,7 @@ class Pipe(BranchWInternalsComponent):
         pipe_results["VINIT_TO"] = np.zeros((len(v_pipe_idx), 2), dtype=np.float64)
         pipe_results["VINIT_MEAN"] = np.zeros((len(v_pipe_idx), 2), dtype=np.float64)
 
-        if np.all(internal_sections[pipe] >= 2):
+        if np.all(internal_sections >= 2):
             fluid = get_fluid(net)
             f, t = get_lookup(net, "branch", "from_to")[cls.table_name()]
             pipe_pit = net["_pit"]["branch"][f:t, :]
